@@ -884,6 +884,98 @@ func (e *Engine) evalCall(x *Expr, se *SpecEnv) Val {
 			}
 			return a.Res[j]
 		}
+	case "chlen", "chcap", "chclosed", "chhead", "chtail":
+		c := arg(0).L[0]
+		switch x.Name {
+		case "chlen":
+			return mkInt(Sub(e.chTail(se.st, c), e.chHead(se.st, c)))
+		case "chcap":
+			return mkInt(e.chCap(c))
+		case "chclosed":
+			return mkBool(e.chClosed(se.st, c))
+		case "chhead":
+			return mkInt(e.chHead(se.st, c))
+		}
+		return mkInt(e.chTail(se.st, c))
+	case "chat":
+		// chat(ch, p): the value handed to ch at history position p
+		cv := arg(0)
+		return e.chanAt(se.st, cv.L[0], resolve(chanElem(cv.T), se.env), arg(1).L[0])
+	case "ctxdone":
+		// ctxdone(ctx): the channel ctx.Done() returns
+		cv := arg(0)
+		return Val{T: types.NewChan(types.RecvOnly, types.NewStruct(nil, nil)), L: []Term{e.ctx.App("ctxdone", SInt, cv.L[len(cv.L)-1])}}
+	case "envchan":
+		return mkBool(e.chEnv(arg(0).L[0]))
+	case "nacts":
+		// nacts(K): how many actions of kind K this call performed; nacts(K, obj): on that object.
+		// K_ChanRecv counts receives that took a value, K_ChanRecvClosed those that found the channel closed and drained.
+		kc := e.evalSpec(x.Args[0], se).L[0]
+		var obj *Term
+		if len(x.Args) > 1 {
+			o := arg(1).L[0]
+			obj = &o
+		}
+		log := se.st.actionLog
+		if se.cur != nil {
+			log = se.cur.actionLog
+		}
+		sum := IntLit(0)
+		for _, a := range log {
+			conds := []Term{}
+			switch {
+			case a.Kind == "ChanRecv":
+				okT := a.Res[1].L[0]
+				conds = append(conds, Or(And(Eq(kc, IntLit(int64(kindCode("ChanRecv")))), okT), And(Eq(kc, IntLit(int64(kindCode("ChanRecvClosed")))), Not(okT))))
+			default:
+				conds = append(conds, Eq(kc, IntLit(int64(kindCode(a.Kind)))))
+			}
+			if obj != nil {
+				conds = append(conds, Eq(a.Obj, *obj))
+			}
+			sum = Add(sum, Ite(And(conds...), IntLit(1), IntLit(0)))
+		}
+		return mkInt(sum)
+	case "actval":
+		// actval(K, obj): the value sent (K_ChanSend) / received (K_ChanRecv) by the LAST such action on obj
+		kname := strings.TrimPrefix(x.Args[0].Name, "K_")
+		o := arg(1)
+		log := se.st.actionLog
+		if se.cur != nil {
+			log = se.cur.actionLog
+		}
+		var out *Val
+		for _, a := range log {
+			if a.Kind != kname {
+				continue
+			}
+			var v Val
+			if kname == "ChanSend" {
+				v = a.Args[0]
+			} else if len(a.Res) > 0 {
+				v = a.Res[0]
+			} else {
+				continue
+			}
+			if want := resolve(chanElem(o.T), se.env); len(v.L) != len(e.lay.Leaves(want)) {
+				continue // an action on a channel of another element type
+			}
+			if out == nil {
+				c := v
+				out = &c
+				continue
+			}
+			n := Val{T: v.T, L: make([]Term, len(v.L))}
+			for i := range v.L {
+				n.L[i] = Ite(Eq(a.Obj, o.L[0]), v.L[i], out.L[i])
+			}
+			out = &n
+		}
+		if out == nil {
+			// no such action on this path: an unconstrained value (clauses guard it with nacts(...) > 0)
+			return e.freshVal("noact", resolve(chanElem(o.T), se.env))
+		}
+		return *out
 	case "oncefirst":
 		// oncefirst(o, F): the value the one invocation that ran under o's sync.Once stored into field F
 		recv := arg(0)
